@@ -17,6 +17,11 @@ UDC = 'asefile::parse::UserDataContext'
 NO_CTX_WRITE = ['Palette', 'ColorProfile', 'ExternalFiles', 'Tileset', 'CelExtra', 'Mask', 'Path']
 
 
+def layout_bits(ty):
+    import layout as _l
+    return _l.INT_BITS.get(ty, 64)
+
+
 def switch_variants(body, sw):
     """{value: variant name} for a switch on an enum discriminant"""
     t = body.blocks[sw]['term']
@@ -142,6 +147,14 @@ def run(ctx):
                     idx = strip_casts(pl) if pl is not None else None
                     ok = (v == want_v and idx is not None and idx[0] == 'call' and idx[1] == 'std::vec::Vec::len'
                           and effects.root_of(idx[2][0]) == (pi_idx, [vec]))
+                    # the index is kept at no less than 32 bits: slices are not capped at 65536, a 16-bit context index would hand the
+                    # record after slice 65536 to slice 0 (seed C10-k)
+                    from terms import casts_on as _casts_on
+                    # (layers are capped at 65536 before the sprite is returned, so 16 bits do for a layer index)
+                    narrow = [c_ for c_ in _casts_on(pl)[0] if layout_bits(c_[1]) < (16 if kind == 'Layer' else 32)] if pl is not None else []
+                    if ok and narrow:
+                        ok = False
+                        detail = 'the context index is narrowed by %s' % narrow
                     if ok:
                         # the length must be taken before the push (same callee body: dominance of sites)
                         len_site = idx[3]
